@@ -319,6 +319,13 @@ func (x *Exec) havocRec(st *State, rec *modRecorder, stable map[string][]T) {
 			st.setHeap(n, h)
 			continue
 		}
+		if x.immutableHeaps[n] && st.entryNext.S != "" {
+			if h, ok := st.heaps[n]; ok {
+				x.havocYoung(st, n, h)
+				st.modHeaps[n] = true
+				continue
+			}
+		}
 		st.heaps[n] = fresh(n, sort)
 		st.modHeaps[n] = true
 	}
